@@ -78,7 +78,7 @@ CHECKS = {
  "C14": ("E1+E3", "model_checking",
          "explicit-state / exhaustive history search of the two token stores against reference models; exhaustive acceptance matrix on the real server endpoint",
          "BloomTokenLog and TokenMemoryCache are driven through every call history up to a depth bound (all capacities incl. those forcing the hash-set-to-bloom conversion) against reference models: no nonce accepted twice, cache agrees exactly with an LRU-of-queues model and never hands a token out twice. Genuine Retry and NEW_TOKEN tokens obtained from real flows are presented unchanged, with every single bit flipped, every truncation, extension, every splice with a second genuine token, from the same address / same IP other port / other IP, at issue time / lifetime-1 s / lifetime+2 s, and a second time; the server's verdict (Incoming validated / may_retry, or stateless INVALID_TOKEN) must match the property. The client must reject server transport parameters whose CID-echo fields are absent, wrong or unexpectedly present, with and without a real Retry.",
-         "Real ring AEAD for tokens, model TLS for the handshake; one-second token time resolution, so the exact lifetime boundary is not probed; Retry integrity-tag alterations are under C04.",
+         "Real ring AEAD for tokens, model TLS for the handshake; one-second token time resolution, so the exact lifetime boundary is not probed; forged Retry packets use the public Retry integrity key.",
          "DESIGN.md#c14"),
  "C15": ("E3+E2", "fault_enumeration",
          "exhaustive address-event point enumeration on real endpoints (migration, double migration, attacker replay from a spoofed address, migration disabled, off-path datagrams at the client) with single fate deviations",
@@ -106,6 +106,25 @@ CHECKS = {
          "Model TLS replaces rustls (binding pass compares abstract traces); losses bounded to the first K datagrams / deviation window; timers serviced exactly on time.",
          "DESIGN.md#c02"),
 }
+
+# sentences appended to the level text of checks that were extended after the first write-up
+EXTRA = {
+ "C01": "Workloads W11/W12 add stop, reset-on-stopped, late finishes and four streams recycling pooled stream state; ClosedStream or silent discard on a stream nobody ended is a violation.",
+ "C02": "A busy-polling driver (extra transmit polls every 50/100/1000 us of virtual time) must make the same progress for rate-limited and window-limited senders.",
+ "C04": "Retry probes include a second Retry whose tag verifies against the CID in use after the first, and a Retry right behind the server's first datagram cut down to its Initial packet; early datagrams damaged in transit (original lost, mutated copy arrives) must be recovered from.",
+ "C05": "Also 0-RTT cases (rejected with lower limits, accepted with higher ones) and asymmetric initial_max_stream_data_* values installed through a transport-parameter override; the ledger reads the parameters actually sent.",
+ "C06": "Window operations include shrink, partial and full regrow; advertised credit is bounded by consumed + the largest window in effect since the debt was incurred; unread datagram bytes never exceed the configured buffer.",
+ "C07": "Spoofed rebinding: while the server is the bulk sender a copy of a client datagram arrives from the same IP / another port at every step of a window; bytes sent to the unvalidated address stay below 3x what was received from it. Coalesced undecryptable packets are counted once.",
+ "C08": "Also an exact stateless reset reaching the closing side after its close, a doubly migrated client, and late senders (the peer vanishes, the application keeps writing): the sender's own idle timeout must fire within the negotiated period after the last packet received.",
+ "C09": "At the end of every execution one datagram per (drained connection, CID it had) is presented again and must not reach a connection, and the server's stateless reset for the CID in use is sent to every surviving client connection in turn and must end exactly that one.",
+ "C13": "Workload W13 queues more near-maximum datagrams than a congestion window; at the end nothing may sit in the datagram send queue with nothing in flight. path_changed() configurations; estimate and every 1-RTT datagram stay within the peer's max_udp_payload_size.",
+ "C14": "Client-side Retry probes at every step index (verifying tag, second Retry verifying against the CID in use, Retry behind a lone server Initial, every tag bit flipped): followed at most once and never after a server packet was accepted. Bloom-log lifetimes 10 s / 1.5 s / 0.7 s.",
+ "C16": "Queue sequences also start in 0-RTT (accepted / rejected, also window-limited so that early datagrams are still queued when the answer arrives); an empty send queue must account for zero bytes.",
+ "C20": "Script-free histories (incl. senders capped at 2 / 20 kB/s) are re-driven by a busy-polling loop (extra transmit polls every 20/50/100/1000 us) and must give the same events and loss counters; zero-latency histories (nanosecond RTT) and silent-peer histories under CID rotation bound timer re-arming.",
+}
+for _k, _v in EXTRA.items():
+    _c = CHECKS[_k]
+    CHECKS[_k] = (_c[0], _c[1], _c[2], _c[3] + " " + _v, _c[4], _c[5])
 NOT_YET = {
 }
 REASONS_NA = {}
